@@ -50,6 +50,7 @@ fn plan_for(prop: &str, tier: &str) -> Vec<(Arc<dyn Engine>, u64)> {
     // directed single-node engines first (cheap, sharp), then the cluster simulator
     match prop {
         "C01" => add(Arc::new(e2::E2), 3_000, 100_000),
+        "C02" | "C03" => add(Arc::new(e2::E2), 3_000, 100_000),
         "C04" => add(Arc::new(e3::pairs::Pairs), 40_000, 2_000_000),
         "C06" => add(Arc::new(e3::kv::Kv), 60_000, 3_000_000),
         "C07" => add(Arc::new(e3::budget::Budget), 20_000, 600_000),
@@ -66,6 +67,9 @@ fn plan_for(prop: &str, tier: &str) -> Vec<(Arc<dyn Engine>, u64)> {
     }
     if prop != "C19" {
         add(Arc::new(e1::engine::E1), 12_000, 400_000);
+    }
+    if let Ok(only) = std::env::var("VERIF_ENGINE") {
+        v.retain(|(e, _)| e.name() == only);
     }
     v
 }
